@@ -10,6 +10,7 @@ M_CTX = '_ZN4FIX810F8MetaCntxC2EjRKNS_14GeneratedTableIPKcNS_12BaseMsgEntryEEERK
 M_BFENC = '_ZNK4FIX89BaseField6encodeEPc'
 M_EXT = '_ZN4FIX811MessageBase15extract_elementEPKcjPcS3_jj'
 M_EXTFW = '_ZN4FIX811MessageBase27extract_element_fixed_widthEPKcjjPcS3_j'
+M_CHK = '_ZN4FIX87Message11calc_chksumEPKcmji'
 M_DECODE = '_ZN4FIX811MessageBase6decodeERKNSt7__cxx1112basic_stringIcSt11char_traitsIcESaIcEEEjjb'
 M_DGROUP = '_ZN4FIX811MessageBase12decode_groupEPNS_9GroupBaseEtRKNSt7__cxx1112basic_stringIcSt11char_traitsIcESaIcEEEjj'
 GINIT = '_GLOBAL__sub_I_l3_world.cpp'
@@ -37,6 +38,7 @@ STUBS = ['F8MetaCntx::F8MetaCntx := shim vf_ctx_ctor: the same member initialisa
          'strlen := ISO C strlen; on the value buffer the tokenizer just filled its result is ASSERTED to be that value\'s length (checked lemma)',
          'gmtime_r := contract (proleptic Gregorian UTC): returns the calendar fields of the harness instant whose second count it is asked for; any other request fails the check',
          'std::string out-of-line members, operator new (never fails), _Rb_tree_insert_and_rebalance/increment/decrement (unbalanced BST, same in-order sequence), exception runtime: models/cxx.c; std::ios_base::Init, __cxa_atexit: no-ops (models/l3_env.c)',
+         'constructors of the f8Exception family and f8Exception::format<> := no text formatting (the harness observes that an exception is pending; never reached when the properties hold)',
          'SingleLogger::is_loggable := false (logging off)']
 
 def schema_hash(): return file_hash(SCHEMA, repo_hash())
@@ -62,8 +64,12 @@ def world(ctx, wrap=True):
     ll = ctx.link_ir([shim, msg], 'l3all')
     opts = ['--typed-alloc', '--ptrcmp', '--ptrdiff', '--ptrdiff0']
     for w in (M_BFENC, M_EXT, M_EXTFW): opts += ['--wrap', w]
-    info = ctx.translate(ll, ROOTS, 'l3w.c', stubs={M_CTX: 'st_ctx_ctor', 'strlen': 'st_strlen', M_FNCALL: 'st_fn_msg_call'}, stubfiles=['common.stubs'], models=['cxx.c', 'stubs.c', 'l3_env.c'], opts=opts,
+    info = ctx.translate(ll, ROOTS, 'l3w.c', stubs={M_CTX: 'st_ctx_ctor', 'strlen': 'st_strlen', M_FNCALL: 'st_fn_msg_call'}, stubfiles=['common.stubs', 'l3.stubs'], models=['cxx.c', 'stubs.c', 'l3_env.c'], opts=opts,
                          provided=['gmtime_r'])
+    # second translation for the C02 ordering harnesses: Message::calc_chksum replaced by the byte-sum reference (assume-guarantee with C07, as in C02's
+    # framing harness): the word-wise kernel against a byte-wise oracle is the adder-tree equivalence no back end decides (DESIGN.md section 3)
+    ctx.translate(ll, ROOTS, 'l3w_cs.c', stubs={M_CTX: 'st_ctx_ctor', 'strlen': 'st_strlen', M_FNCALL: 'st_fn_msg_call', M_CHK: 'st_calc_chksum'}, stubfiles=['common.stubs', 'l3.stubs'],
+                  models=['cxx.c', 'stubs.c', 'l3_env.c'], opts=opts, provided=['gmtime_r'])
     ctx._l3 = info; ctx._l3gen = g
     return info
 
@@ -116,13 +122,16 @@ SHAPES = {
     'all':     (1, [('b', 60, 'ts', 1, 0), ('b', 62, 'data', 1, 0), ('b', 61, 'cint', 1, 0), ('b', 43, 'bool', 0, 0), ('b', 38, 'int', 1, 0), ('b', 54, 'char', 0, 0), ('b', 11, 'str', 1, 0)] + hdr(order=[1, 3, 0, 2]), 0),
 }
 
-def us_main(n=12, cap=170): return ['main.%d:%d' % (i, cap + 2) for i in range(n)] + ['same_bytes.0:%d' % (cap + 2), 'l3_check_wire.2:%d' % (cap + 2)]
+def us_main(n=12, cap=170): return ['main.%d:%d' % (i, cap + 2) for i in range(n)] + ['same_bytes.0:%d' % (cap + 2), 'l3_check_wire.2:%d' % (cap + 2), 'st_calc_chksum.0:%d' % (cap + 2)]
 
 def harness(ctx, name, cfile, shape, defs=(), *, functions=(), desc='', tier='quick', timeout=900, cap=170, extra_bounds=''):
     msg, fields, nel = SHAPES[shape]
+    if any(f[2] == 'ts' and f[3] == 0 for f in fields):
+        if ctx.tier == 'quick': defs = list(defs) + ['TS_NARROW']; extra_bounds += '; symbolic instants: 2013-03-04 02:44:ss.mmm with ss 0..59, mmm 0..999'
+        else: extra_bounds += '; symbolic instants: any valid civil instant of 2013 at millisecond precision'
     shape_header(ctx, shape, msg, fields, nel)
     d = list(defs) + ['L3_SHAPE="shape_%s.h"' % shape, 'VF_GLOBAL_INIT=' + GINIT.replace('.', '_2e'), 'VF_MAXCOPY=%d' % FLD, 'L3_CAP=%d' % cap]
-    h = Harness(name, VERIF + '/harness/' + cfile, defines=d, unwind=70, unwindset=unwindset(msglen=cap) + us_main(cap=cap), timeout=timeout, mem_gb=12, nochecks=True, flags=['--max-field-sensitivity-array-size', '256'],
+    h = Harness(name, VERIF + '/harness/' + cfile, defines=d, unwind=70, unwindset=unwindset(msglen=cap) + us_main(cap=cap), timeout=timeout, mem_gb=12, nochecks=True, backend='kissat', flags=['--max-field-sensitivity-array-size', '256'],
                 functions=FUN_BUILD + list(functions), stubs=STUBS, tier=tier, desc=desc,
                 bounds='message %s, %s; ints over their whole digit class (sign x number of decimal digits), string bytes any but SOH/NUL, data bytes any%s; FIX8_MAX_FLD_LENGTH scaled to %d; '
                        'CBMC memory-safety instrumentation off (memory safety of the codec is C03)%s'
@@ -132,7 +141,8 @@ def harness(ctx, name, cfile, shape, defs=(), *, functions=(), desc='', tier='qu
 
 def replay_exe(ctx):
     g = gen(ctx)
-    return ctx.native('l3replay', ['replay/l3_replay.cpp'], flags=('-O1', '-g', '-fsanitize=address,undefined', '-fno-sanitize=alignment,vptr', '-fno-access-control', '-I' + g, '-DVF_L3_SCHEMA=0x%s' % schema_hash()[:8]),
+    # runtime/message.cpp of the tree under test is compiled into the driver (its definitions take precedence over libfix8.so's)
+    return ctx.native('l3replay', ['replay/l3_replay.cpp', REPO + '/runtime/message.cpp'], flags=('-O1', '-g', '-fsanitize=address,undefined', '-fno-sanitize=alignment,vptr', '-fno-access-control', '-I' + g, '-DVF_L3_SCHEMA=0x%s' % schema_hash()[:8]),
                       libs=['-L' + REPO + '/runtime/.libs', '-lfix8', '-Wl,-rpath,' + REPO + '/runtime/.libs'])
 
 def cx_args(c, shape):
@@ -148,7 +158,10 @@ def cx_args(c, shape):
         elif kind == 'cint': out.append('%d:%d:i:%d' % (ci, tag, arg))
         elif kind in ('str', 'data'):
             row = arr('cx_str', i, []) or []
-            b = bytes((int(row[k]) & 255) if k < len(row) else 0 for k in range(arg))
+            def cell(k):     # 2-D ghosts arrive as 'cx_str[il][kl]' keys (trace order = last assignment) or as the nested initial array
+                v = c.get('cx_str[%dl][%dl]' % (i, k), c.get('cx_str[%d][%d]' % (i, k)))
+                return int(v) & 255 if v is not None else ((int(row[k]) & 255) if isinstance(row, list) and k < len(row) else 0)
+            b = bytes(cell(k) for k in range(arg))
             out.append('%d:%d:s:%s' % (ci, tag, b.hex()))
         elif kind == 'char': out.append('%d:%d:c:%d' % (ci, tag, _s8(arr('cx_chr', i))))
         elif kind == 'bool': out.append('%d:%d:b:%d' % (ci, tag, int(arr('cx_bool', i)) & 1))
@@ -214,9 +227,11 @@ def add_order_harnesses(ctx, defs=()):
     world(ctx)
     out = []
     for shape in (ORDER_QUICK if ctx.tier == 'quick' else ORDER_THOROUGH):
-        out.append(harness(ctx, 'C02_order_%s' % shape, 'C01_rt.c', shape, list(defs) + ['C02_ORDER', 'ENCODE_ONLY'], functions=FUN_ENC, timeout=900,
+        h = harness(ctx, 'C02_order_%s' % shape, 'C01_rt.c', shape, list(defs) + ['C02_ORDER', 'ENCODE_ONLY', 'L3_WORLD_C="l3w_cs.c"'], functions=[f for f in FUN_ENC if 'calc_chksum' not in f] + ['FIX8::Message::fmt_chksum'], timeout=900,
                            desc='wire format of encode(m): 8, 9, 35 first; BodyLength exact; CheckSum = byte sum mod 256, three digits; every field tag=value<SOH>; header < body < trailer; '
-                                'schema position order regardless of insertion order; group = count then elements each starting with the group\'s first field'))
+                                'schema position order regardless of insertion order; group = count then elements each starting with the group\'s first field')
+        h.stubs = h.stubs + ['Message::calc_chksum(const char*, size_t, unsigned, int) := byte sum of the range it is given, modulo 256 (the contract C07 proves for the kernel); range checked against the encoder\'s buffer']
+        out.append(h)
     ctx.assumptions += ['ordering harnesses: schemas/mini.xml compiled by the f8c of the tree under test; schema positions of the oracle are those of the mini schema (checked natively by the replay driver against the generated classes)']
     return out
 
@@ -227,3 +242,18 @@ def order_replay(ctx, cx, h=None):
     if e1 is None: return rc != 0, 'shape %s: %s' % (shape, short(out))
     w = wire_problem(e1, shape, c)
     return w is not None, 'shape %s: %s (%r)' % (shape, w or 'wire format as required', e1.replace(b'\x01', b'|'))
+
+# ------------------------------------------------------------------ known findings (committed + proposals of this helper while not merged)
+PROPOSED = os.path.join(VERIF, 'tools', 'reports', 'kf_l3.json')
+def kfs(pid):
+    """committed known findings; with VF_KF_PROPOSED=1 also the entries proposed in tools/reports/kf_l3.json"""
+    out = known_findings(pid)
+    if os.environ.get('VF_KF_PROPOSED') and os.path.exists(PROPOSED):
+        have = set(e.get('define') for e in out)
+        out += [e for e in json.load(open(PROPOSED)).get('findings', []) if e.get('property') == pid and e.get('define') not in have]
+    return out
+
+def data_has_nul(c, shape):
+    msg, fields, nel = SHAPES[shape]
+    args = cx_args(c, shape)[2:]
+    return any(f[2] == 'data' and b'\x00' in bytes.fromhex(a.split(':')[3]) for f, a in zip(fields, args))
